@@ -670,7 +670,7 @@ def _table_jobs(tier, seed):
         if not any(kind(k) in ('num', 'text') for k in keys):
             continue
         c0 = rng.choice([1, 2, 3, 25, 26, 27, 52, 100, 255, 256, 701, 702])
-        r0 = rng.choice([r for r in (1, 1, 2, 3, 50, 98, 99, 100, 101, 999, 1000) if (r + 12) * (c0 + 8) <= 30000])
+        r0 = rng.choice([r for r in (1, 1, 2, 3, 50, 98, 99, 100, 101, 999, 1000) if (r + 12) * (c0 + 8) <= (10000 if tier == 'quick' else 30000)])
         width = rng.randint(2, 5)
         tb = Table('R nd', c0, r0, keys, width, f't{ti}_')
         fs = []
